@@ -559,7 +559,7 @@ def run_options(res, driver, tier, rng, tmp):
         for k in undocumented:
             extra_sets.append([k])
             extra_sets.append(docs[:3] + [k])
-        n_rand = 40 if tier == "quick" else 1500
+        n_rand = (40 if tier == "quick" else 1500) * common.effort(tier)
         for _ in range(n_rand):
             ks = [k for k in ALL_KEYS if k not in req and rng.random() < 0.35]
             rng.shuffle(ks)
@@ -709,6 +709,9 @@ def judge_replay(r, tmp, verbose=False):
             if got != expected_behaviour(want):
                 fails.append(f"version {value_key(x)}: accepts {got}, expected {expected_behaviour(want)}")
         return fails
+    if op == "effect":
+        bad = effect_probe(r["class"], r["callback"], r["ext"], tmp)
+        return [bad] if bad else []
     if op == "readme":
         res = Result()
         run_readme(res)
@@ -735,6 +738,62 @@ def run_corpus(res, tmp):
         res.count("corpus:replayed")
 
 
+def effect_probe(name, with_callback, ext, tmp):
+    """Options honoured by effect, not only stored: with persistence on, what the nodes report is in the
+    file after the next save whether or not an event callback is configured; a configured callback sees
+    every accepted message.  Returns a failure text or None."""
+    events = []
+    path = os.path.join(tmp, f"effect-{name}-{int(with_callback)}.{ext}")
+    for leftover in (path, path + ".bak"):
+        if os.path.exists(leftover):
+            os.remove(leftover)
+    vals = dict(values_a(tmp), persistence=True, persistence_file=path, protocol_version="2.2",
+                event_callback=events.append)
+    keys = ["persistence", "persistence_file", "protocol_version"] + (["event_callback"] if with_callback else [])
+    if "MQTT" in name:
+        keys += ["pub_callback", "sub_callback"]
+    elif "TCP" in name:
+        keys += ["host"]
+    else:
+        keys += ["port"]
+    gw, err = build(name, keys, vals)
+    if gw is None:
+        return f"{name}({', '.join(keys)}) is not accepted: {err}"
+    lines = ["1;255;0;0;17;2.2\n", "1;1;0;0;6;probe\n", "1;1;1;0;0;21.5\n"]
+    try:
+        gw.logic(lines[0])
+        gw.tasks.persistence.save_sensors()
+        gw.logic(lines[1])
+        gw.logic(lines[2])
+        gw.tasks.persistence.save_sensors()
+        gw2, err = build(name, keys, vals)
+        gw2.tasks.persistence.safe_load_sensors()
+        child = gw2.sensors[1].children.get(1) if 1 in gw2.sensors else None
+        got = None if child is None else child.values.get(0)
+    except Exception as exc:  # noqa: BLE001
+        return f"{name} ({'with' if with_callback else 'without'} event_callback, .{ext}): probe raised {type(exc).__name__}: {exc}"
+    if got != "21.5":
+        return (f"{name} with persistence=True and {'an' if with_callback else 'no'} event_callback (.{ext}): a value "
+                f"reported after the first save is not in the file after the next save (restored {got!r})")
+    if with_callback and len(events) != 3:
+        return f"{name}: the configured event_callback saw {len(events)} of 3 accepted messages"
+    return None
+
+
+def run_effects(res, tmp):
+    for name in CLASSES:
+        for with_callback in (True, False):
+            for ext in ("json", "pickle"):
+                res.count("effect-probes")
+                res.evaluations += 1
+                res.distinct.add(digest(["effect", name, with_callback, ext]))
+                bad = effect_probe(name, with_callback, ext, tmp)
+                if bad:
+                    res.oracle_failures.append({
+                        "key": {"kind": "option-without-effect", "class": name, "callback": with_callback},
+                        "what": bad, "replay": {"op": "effect", "class": name, "callback": with_callback, "ext": ext}})
+
+
 def run(tier, seed, driver):
     res = Result()
     rng = random.Random(seed * 7919 + 18)
@@ -744,6 +803,7 @@ def run(tier, seed, driver):
         run_readme(res)
         check_no_io(res, tmp)
         run_options(res, driver, tier, rng, tmp)
+        run_effects(res, tmp)
         run_versions(res, driver, tier)
     finally:
         shutil.rmtree(tmp, ignore_errors=True)
